@@ -1,7 +1,1008 @@
-//! drivers for this area (see lib/README_FRAMEWORK.md)
-use crate::util::Args;
+//! Scalar number drivers (C12: `Natural`; C10: `I64` / `F64` terminal types).
+//!
+//! The harness calls, observes and logs; it never decides what a value should
+//! be.  Big numbers are transmitted as JSON arrays of base-2^15 limbs (least
+//! significant first, no most-significant zero limbs) obtained by plain
+//! shifting of the bits of the Rust representation (documented accessors
+//! `Natural::mantissa()/exp()/is_nan()`, `i64 as u64`, `f64::to_bits()`).
+//!
+//! drivers: `natural-pairs`, `natural-clone`, `num-i64`, `num-f64`.
+//!
+//! Every result is a JSON object: `{"v": ...}` or `{"panic": msg}` (a panic of
+//! the code under test is data).
 
-pub fn run(driver: &str, _args: &Args) {
-    eprintln!("driver {driver} not implemented yet");
-    std::process::exit(2);
+use std::collections::hash_map::DefaultHasher;
+use std::collections::HashSet;
+use std::hash::{Hash, Hasher};
+
+use oxidd_core::function::NumberBase;
+use oxidd_core::util::num::Natural;
+use oxidd_dump::ParseTagged;
+use oxidd_rules_mtbdd::terminal::{F64, I64};
+
+use crate::util::{catch, json, write_summary, Args, Rng, TraceOut, Value};
+
+// ---------------------------------------------------------------------------
+// transport encoding
+
+/// base-2^15 limbs of the number whose little-endian 64-bit words are `ds`
+fn limbs(ds: &[u64]) -> Vec<u32> {
+    let nbits = ds.len() * 64;
+    let mut out = Vec::with_capacity(nbits / 15 + 1);
+    let mut p = 0usize;
+    while p < nbits {
+        let w = p / 64;
+        let o = (p % 64) as u32;
+        let mut x = ds[w] >> o;
+        if o > 49 && w + 1 < ds.len() {
+            x |= ds[w + 1] << (64 - o);
+        }
+        out.push((x & 0x7fff) as u32);
+        p += 15;
+    }
+    while out.last() == Some(&0) {
+        out.pop();
+    }
+    out
+}
+fn limbs64(x: u64) -> Vec<u32> {
+    limbs(&[x])
+}
+fn limbs128(x: u128) -> Vec<u32> {
+    limbs(&[x as u64, (x >> 64) as u64])
+}
+
+fn nat_json(n: &Natural) -> Value {
+    if n.is_nan() {
+        json!({"nan": true, "m": [], "e": []})
+    } else {
+        json!({"nan": false, "m": limbs(n.mantissa()), "e": limbs64(n.exp())})
+    }
+}
+fn nat_res(r: Result<Natural, String>) -> Value {
+    match r {
+        Ok(n) => json!({"v": nat_json(&n)}),
+        Err(m) => json!({"panic": m}),
+    }
+}
+fn codes(s: &str) -> Vec<u32> {
+    s.chars().map(|c| c as u32).collect()
+}
+fn hash_of<T: Hash>(x: &T) -> u64 {
+    let mut h = DefaultHasher::new();
+    x.hash(&mut h);
+    h.finish()
+}
+fn ord_str(o: Option<std::cmp::Ordering>) -> &'static str {
+    match o {
+        Some(std::cmp::Ordering::Less) => "lt",
+        Some(std::cmp::Ordering::Equal) => "eq",
+        Some(std::cmp::Ordering::Greater) => "gt",
+        None => "none",
+    }
+}
+
+// ---------------------------------------------------------------------------
+// history bookkeeping: independent events, short histories (cheap replay)
+
+struct Hist {
+    out: TraceOut,
+    kind: &'static str,
+    in_hist: usize,
+    per_hist: usize,
+    rows: u64,
+    nontrivial: HashSet<u64>,
+}
+impl Hist {
+    fn new(dir: &str, prefix: &str, kind: &'static str, chunk: usize) -> Self {
+        Hist {
+            out: TraceOut::new(dir, prefix, chunk),
+            kind,
+            in_hist: usize::MAX,
+            per_hist: 100,
+            rows: 0,
+            nontrivial: HashSet::new(),
+        }
+    }
+    fn emit(&mut self, v: Value) {
+        if self.in_hist >= self.per_hist {
+            self.out.begin_history();
+            self.out.emit(json!({"ev": "reset", "kind": self.kind}));
+            self.in_hist = 0;
+        }
+        self.out.emit(v);
+        self.in_hist += 1;
+        self.rows += 1;
+    }
+    /// a case counts as non-trivial when the observed result is none of the
+    /// operands (compared as transport values); distinct by content
+    fn note(&mut self, op: &str, operands: &[&Value], res: &Value) {
+        let r = res.get("v");
+        if let Some(r) = r {
+            if operands.iter().any(|o| *o == r) {
+                return;
+            }
+        }
+        let mut h = DefaultHasher::new();
+        op.hash(&mut h);
+        for o in operands {
+            o.to_string().hash(&mut h);
+        }
+        self.nontrivial.insert(h.finish());
+    }
+    fn finish(mut self, dir: &str, name: &str) {
+        self.out.finish();
+        let nt = self.nontrivial.len();
+        write_summary(dir, name, &self.out, json!({"rows": 0, "nontrivial": nt}));
+    }
+}
+
+// ---------------------------------------------------------------------------
+// Natural
+
+fn pow2_digits(k: usize, delta: i32) -> Vec<u64> {
+    // digits of 2^k + delta (delta in {-1, 0, 1}), by setting bits
+    let mut d = vec![0u64; k / 64 + 1];
+    match delta {
+        0 => d[k / 64] = 1u64 << (k % 64),
+        1 => {
+            d[k / 64] = 1u64 << (k % 64);
+            d[0] |= 1;
+        }
+        _ => {
+            // 2^k - 1: k one-bits
+            for i in 0..k {
+                d[i / 64] |= 1u64 << (i % 64);
+            }
+        }
+    }
+    d
+}
+
+const KS: [usize; 11] = [31, 32, 63, 64, 65, 127, 128, 129, 191, 192, 193];
+const KS_MORE: [usize; 8] = [1, 2, 15, 16, 255, 256, 257, 511];
+
+fn boundary_digit_sets(thorough: bool) -> Vec<Vec<u64>> {
+    let mut v: Vec<Vec<u64>> = vec![vec![0], vec![1]];
+    for &k in KS.iter() {
+        for d in [-1, 0, 1] {
+            v.push(pow2_digits(k, d));
+        }
+    }
+    // the type's digit boundaries (64-bit digits) and representation corner
+    // cases: all-ones digits, top digit 1, a zero digit in the middle,
+    // mantissas that end exactly at a digit boundary
+    let m = u64::MAX;
+    let hi = 1u64 << 63;
+    v.extend([
+        vec![m, m],
+        vec![m, 1],
+        vec![1, m],
+        vec![1, hi],
+        vec![m, hi],
+        vec![1, 0, 1],
+        vec![m, m, m],
+        vec![1, 1],
+        vec![0, hi, 1],
+        vec![m - 1, 1],
+        vec![2, m],
+        vec![hi | 1],
+        vec![m ^ hi, 1],
+        vec![m, m, m, m],
+        vec![1, 0, 0, hi],
+    ]);
+    let more: &[usize] = if thorough { &KS_MORE } else { &KS_MORE[4..] };
+    for &k in more {
+        for d in [-1, 0, 1] {
+            if k == 1 && d == -1 {
+                continue;
+            }
+            v.push(pow2_digits(k, d));
+        }
+    }
+    v
+}
+
+fn random_digits(rng: &mut Rng) -> Vec<u64> {
+    // up to 512 bits; varied shapes: dense, sparse, long runs of ones/zeros
+    let nd = 1 + rng.below(8);
+    let mut d: Vec<u64> = (0..nd)
+        .map(|_| match rng.below(6) {
+            0 => 0,
+            1 => u64::MAX,
+            2 => 1u64 << rng.below(64),
+            3 => u64::MAX << rng.below(64),
+            _ => rng.next(),
+        })
+        .collect();
+    if rng.chance(1, 2) {
+        let bits = rng.below(64) as u32;
+        let last = d.len() - 1;
+        d[last] >>= bits;
+    }
+    if rng.chance(1, 3) {
+        d[0] &= u64::MAX << rng.below(64);
+    }
+    d
+}
+
+fn mk_nat(ds: &[u64]) -> Natural {
+    Natural::from_le_digits(ds)
+}
+
+fn nat_add(h: &mut Hist, a: &Natural, b: &Natural) {
+    let (ja, jb) = (nat_json(a), nat_json(b));
+    let (a2, b2) = (a.clone(), b.clone());
+    let r = nat_res(catch(move || a2 + b2));
+    h.note("add", &[&ja, &jb], &r);
+    h.emit(json!({"ev": "nat_add", "a": ja, "b": jb, "res": r}));
+}
+
+fn nat_cmp(h: &mut Hist, a: &Natural, b: &Natural) {
+    let (ja, jb) = (nat_json(a), nat_json(b));
+    let r = catch(|| {
+        let c = a.partial_cmp(b);
+        let e = a == b;
+        let he = hash_of(a) == hash_of(b);
+        (c, e, he, a < b, a <= b, a > b, a >= b)
+    });
+    let res = match r {
+        Ok((c, e, he, lt, le, gt, ge)) => {
+            json!({"cmp": ord_str(c), "eq": e, "heq": he, "lt": lt, "le": le, "gt": gt, "ge": ge})
+        }
+        Err(m) => json!({"panic": m}),
+    };
+    if a != b {
+        h.note("cmp", &[&ja, &jb], &json!({}));
+    }
+    h.emit(json!({"ev": "nat_cmp", "a": ja, "b": jb, "res": res}));
+}
+
+fn nat_shift(h: &mut Hist, a: &Natural, left: bool, k: u64, w32: bool) {
+    let ja = nat_json(a);
+    let a2 = a.clone();
+    let r = nat_res(catch(move || match (left, w32) {
+        (true, true) => a2 << (k as u32),
+        (true, false) => a2 << k,
+        (false, true) => a2 >> (k as u32),
+        (false, false) => a2 >> k,
+    }));
+    if k != 0 {
+        h.note(if left { "shl" } else { "shr" }, &[&ja, &json!(k)], &r);
+    }
+    h.emit(json!({"ev": if left { "nat_shl" } else { "nat_shr" }, "a": ja, "k": limbs64(k),
+                  "w": if w32 { 32 } else { 64 }, "res": r}));
+}
+
+fn nat_try(h: &mut Hist, a: &Natural) {
+    let ja = nat_json(a);
+    let r64 = match catch(|| u64::try_from(a)) {
+        Ok(Ok(x)) => json!({"v": {"ok": true, "x": limbs64(x)}}),
+        Ok(Err(_)) => json!({"v": {"ok": false, "x": []}}),
+        Err(m) => json!({"panic": m}),
+    };
+    h.note("try_u64", &[&ja], &r64);
+    h.emit(json!({"ev": "nat_try", "ty": "u64", "a": ja, "res": r64}));
+    let r128 = match catch(|| u128::try_from(a)) {
+        Ok(Ok(x)) => json!({"v": {"ok": true, "x": limbs128(x)}}),
+        Ok(Err(_)) => json!({"v": {"ok": false, "x": []}}),
+        Err(m) => json!({"panic": m}),
+    };
+    h.note("try_u128", &[&ja], &r128);
+    h.emit(json!({"ev": "nat_try", "ty": "u128", "a": ja, "res": r128}));
+}
+
+fn f64_json(x: f64) -> Value {
+    let b = x.to_bits();
+    json!({"s": (b >> 63) as u32, "x": ((b >> 52) & 0x7ff) as u32, "f": limbs64(b & ((1u64 << 52) - 1))})
+}
+
+fn nat_f64(h: &mut Hist, a: &Natural) {
+    let ja = nat_json(a);
+    let r = match catch(|| f64::from(a)) {
+        Ok(x) => json!({"v": f64_json(x)}),
+        Err(m) => json!({"panic": m}),
+    };
+    h.note("to_f64", &[&ja], &r);
+    h.emit(json!({"ev": "nat_f64", "a": ja, "res": r}));
+    if !a.is_nan() {
+        let r = match catch(|| a.bit_width()) {
+            Ok(x) => json!({"v": limbs128(x)}),
+            Err(m) => json!({"panic": m}),
+        };
+        h.emit(json!({"ev": "nat_bw", "a": ja, "res": r}));
+    }
+}
+
+fn nat_from_prims(h: &mut Hist, x: u128) {
+    macro_rules! one {
+        ($t:ty, $name:literal) => {
+            if x <= <$t>::MAX as u128 {
+                let y = x as $t;
+                let r = nat_res(catch(move || Natural::from(y)));
+                let jx = json!(limbs128(x));
+                h.note($name, &[&jx], &json!({}));
+                h.emit(json!({"ev": "nat_from", "ty": $name, "x": jx, "res": r}));
+            }
+        };
+    }
+    one!(u8, "u8");
+    one!(u16, "u16");
+    one!(u32, "u32");
+    one!(u64, "u64");
+    one!(u128, "u128");
+}
+
+fn nat_from_digits(h: &mut Hist, ds: &[u64]) {
+    let ds2 = ds.to_vec();
+    let r = nat_res(catch(move || Natural::from_le_digits(&ds2)));
+    let jd: Vec<Vec<u32>> = ds.iter().map(|&d| limbs64(d)).collect();
+    let jd = json!(jd);
+    h.note("from_le_digits", &[&jd], &json!({}));
+    h.emit(json!({"ev": "nat_digits", "ds": jd, "res": r}));
+}
+
+/// flag combinations of std::fmt that apply to integers: (literal, fill,
+/// align, plus, alt, zero).  The width is a run-time argument (`1$`).
+macro_rules! fmt_combo {
+    ($h:expr, $n:expr, $ja:expr, $w:expr, $radices:expr, $flags:literal, $fill:expr, $align:expr, $plus:expr, $alt:expr, $zero:expr) => {{
+        let n: &Natural = $n;
+        let w: usize = $w;
+        let all: [(&str, Result<String, String>); 5] = [
+            ("b", catch(|| format!(concat!("{:", $flags, "1$b}"), n, w))),
+            ("o", catch(|| format!(concat!("{:", $flags, "1$o}"), n, w))),
+            ("x", catch(|| format!(concat!("{:", $flags, "1$x}"), n, w))),
+            ("X", catch(|| format!(concat!("{:", $flags, "1$X}"), n, w))),
+            ("d", catch(|| format!(concat!("{:", $flags, "1$}"), n, w))),
+        ];
+        for (radix, r) in all {
+            if !$radices.contains(radix) {
+                continue;
+            }
+            let res = match r {
+                Ok(s) => json!({"v": codes(&s), "s": s}),
+                Err(m) => json!({"panic": m}),
+            };
+            let key = json!([radix, $flags, w]);
+            $h.note("fmt", &[$ja, &key], &json!({}));
+            $h.emit(json!({"ev": "nat_fmt", "a": $ja, "radix": radix, "alt": $alt, "plus": $plus,
+                           "zero": $zero, "width": w, "fill": ($fill as char) as u32, "align": $align,
+                           "flags": $flags, "res": res}));
+        }
+    }};
+}
+
+/// `sel`: which flag combinations (bit mask over the list below)
+fn nat_fmt(h: &mut Hist, a: &Natural, widths: &[usize], radices: &str, sel: u32) {
+    let ja = nat_json(a);
+    let ja = &ja;
+    for &w in widths {
+        let mut i = 0u32;
+        macro_rules! c {
+            ($flags:literal, $fill:expr, $align:expr, $plus:expr, $alt:expr, $zero:expr) => {
+                if sel & (1 << i) != 0 {
+                    fmt_combo!(h, a, ja, w, radices, $flags, $fill, $align, $plus, $alt, $zero);
+                }
+                i += 1;
+            };
+        }
+        c!("", ' ', "", false, false, false); // 0
+        c!("#", ' ', "", false, true, false); // 1
+        c!("+", ' ', "", true, false, false); // 2
+        c!("+#", ' ', "", true, true, false); // 3
+        c!("0", ' ', "", false, false, true); // 4
+        c!("#0", ' ', "", false, true, true); // 5
+        c!("+0", ' ', "", true, false, true); // 6
+        c!("+#0", ' ', "", true, true, true); // 7
+        c!("<", ' ', "<", false, false, false); // 8
+        c!("^", ' ', "^", false, false, false); // 9
+        c!(">", ' ', ">", false, false, false); // 10
+        c!("*<", '*', "<", false, false, false); // 11
+        c!("*^", '*', "^", false, false, false); // 12
+        c!("*>", '*', ">", false, false, false); // 13
+        c!("_^#", '_', "^", false, true, false); // 14
+        c!("*>+#", '*', ">", true, true, false); // 15
+        c!("*<#", '*', "<", false, true, false); // 16
+        c!("<0", ' ', "<", false, false, true); // 17
+        c!("*^#0", '*', "^", false, true, true); // 18
+        c!("0<", '0', "<", false, false, false); // 19
+        let _ = i;
+    }
+}
+const ALL_COMBOS: u32 = (1 << 20) - 1;
+
+fn fmt_widths(a: &Natural, radix_len_hint: usize) -> Vec<usize> {
+    let _ = a;
+    vec![0, radix_len_hint + 3, radix_len_hint + 9]
+}
+
+fn per_operand(h: &mut Hist, a: &Natural, rng: &mut Rng, full_fmt: bool) {
+    // shifts: digit-boundary amounts, amounts around the exponent
+    let e = if a.is_nan() { 0 } else { a.exp() };
+    let mut ks: Vec<u64> = vec![0, 1, 63, 64, 65, 128, e, e.wrapping_add(1), e.saturating_sub(1)];
+    ks.push(rng.below(200) as u64);
+    ks.dedup();
+    for &k in &ks {
+        if k <= u32::MAX as u64 {
+            nat_shift(h, a, true, k, k % 2 == 0);
+            nat_shift(h, a, false, k, k % 2 == 1);
+        }
+        nat_shift(h, a, false, k, false);
+    }
+    nat_try(h, a);
+    nat_f64(h, a);
+    // text: the plain hexadecimal output tells how long the number is
+    let hexlen = format!("{:x}", a).len();
+    if full_fmt {
+        nat_fmt(h, a, &[0, 1, 2, hexlen, hexlen + 3, 4 * hexlen + 9], "boxXd", ALL_COMBOS);
+    } else {
+        let sel = (1u32 << rng.below(20)) | (1 << rng.below(20)) | (1 << rng.below(8)) | 1;
+        nat_fmt(h, a, &fmt_widths(a, hexlen + rng.below(3 * hexlen + 1)), "boxXd", sel);
+    }
+}
+
+fn natural_pairs(args: &Args) {
+    let dir = args.get("out", "out");
+    let seed = args.num("seed", 1);
+    let thorough = args.get("tier", "quick") == "thorough";
+    let count = args.num("count", if thorough { 60000 } else { 2500 }) as usize;
+    let mut rng = Rng::new(seed);
+    let mut h = Hist::new(&dir, "natural", "natural", args.num("chunk", 2500) as usize);
+
+    // ---- construction ----
+    let sets = boundary_digit_sets(thorough);
+    for ds in &sets {
+        nat_from_digits(&mut h, ds);
+        // the same digits with zero digits around them
+        let mut d2 = vec![0u64; 1 + rng.below(2)];
+        d2.extend_from_slice(ds);
+        d2.push(0);
+        nat_from_digits(&mut h, &d2);
+        if ds.len() <= 2 {
+            let x = ds[0] as u128 | ((*ds.get(1).unwrap_or(&0) as u128) << 64);
+            nat_from_prims(&mut h, x);
+        }
+    }
+    for x in [0u128, 1, 2, 3, 4, 255, 256, 65535, 65536, u32::MAX as u128, 1 << 32, u64::MAX as u128,
+              1 << 64, (1 << 64) + 1, 3 << 63, 3 << 64, u128::MAX, 1 << 127, (1 << 127) + 1, u128::MAX - 1,
+              (u64::MAX as u128) << 64, (u64::MAX as u128) << 1, (u64::MAX as u128) << 63, 5 << 100, 6, 12] {
+        nat_from_prims(&mut h, x);
+    }
+    for _ in 0..count / 10 {
+        let w = 1 + rng.below(128);
+        let mut x = (rng.next() as u128) << 64 | rng.next() as u128;
+        x >>= 128 - w;
+        if rng.chance(1, 2) {
+            x &= u128::MAX << rng.below(w);
+        }
+        nat_from_prims(&mut h, x);
+    }
+
+    // ---- boundary operands ----
+    let base: Vec<Natural> = sets.iter().map(|d| mk_nat(d)).collect();
+    let mut ops: Vec<Natural> = base.clone();
+    // shifted copies: different exponents for the same mantissas
+    let shifts: &[u64] = if thorough { &[1, 63, 64, 65] } else { &[1, 64] };
+    for (i, b) in base.iter().enumerate() {
+        for (j, &s) in shifts.iter().enumerate() {
+            if thorough || (i + j) % 3 == 0 {
+                ops.push(b.clone() << s);
+            }
+        }
+    }
+    for (i, a) in ops.iter().enumerate() {
+        per_operand(&mut h, a, &mut rng, thorough || i % 6 == 0);
+    }
+    for a in &ops {
+        for b in &ops {
+            nat_add(&mut h, a, b);
+            nat_cmp(&mut h, a, b);
+        }
+    }
+
+    // ---- error value: produced by the documented routes ----
+    let one = Natural::from(1u32);
+    let three = Natural::from(3u32);
+    let nan_shr = three.clone() >> 1u32; // inexact right shift
+    let nan_shl = one.clone() << u64::MAX; // exponent overflow
+    let huge = one.clone() << (u64::MAX - 1); // largest exponent
+    let huge3 = three.clone() << (u64::MAX - 2);
+    let nan_add = {
+        let (x, y) = (huge.clone(), huge.clone());
+        catch(move || x + y).unwrap_or(one.clone() << u64::MAX)
+    };
+    let specials = [nan_shr, nan_shl, nan_add, huge.clone(), huge3.clone()];
+    for s in &specials {
+        // only exponent-level operations on the huge ones (their expansion
+        // would not fit in memory)
+        let ja = nat_json(s);
+        h.emit(json!({"ev": "nat_special", "a": ja}));
+        for &k in &[0u64, 1, 2, 64, u64::MAX - 2, u64::MAX - 1, u64::MAX] {
+            nat_shift(&mut h, s, true, k, false);
+            nat_shift(&mut h, s, false, k, false);
+        }
+        nat_shift(&mut h, s, true, 7, true);
+        nat_shift(&mut h, s, false, 7, true);
+        nat_try(&mut h, s);
+        nat_f64(&mut h, s);
+        for t in &specials {
+            nat_cmp(&mut h, s, t);
+            // sums of numbers whose exponents differ by more than a few
+            // hundred bits would need the full expansion: only equal or
+            // close exponents, or an error value
+            nat_add(&mut h, s, t);
+        }
+        for t in [&base[0], &base[1], &base[5], &base[20]] {
+            nat_cmp(&mut h, s, t);
+            nat_cmp(&mut h, t, s);
+            if s.is_nan() {
+                nat_add(&mut h, s, t);
+                nat_add(&mut h, t, s);
+            }
+        }
+        if s.is_nan() {
+            nat_fmt(&mut h, s, &[0, 1, 2, 3, 6, 7], "boxXd", ALL_COMBOS);
+        }
+    }
+    // exponent overflow by shifting and adding near the largest exponent
+    for (i, b) in base.iter().enumerate().skip(1) {
+        if i % 4 != 1 && !thorough {
+            continue;
+        }
+        let e = b.exp();
+        let bw = b.bit_width() as u64;
+        for k in [u64::MAX - e, u64::MAX - e - 1, u64::MAX - e - 2, u64::MAX - bw, u64::MAX, 1 << 63, 1 << 40] {
+            nat_shift(&mut h, b, true, k, false);
+        }
+        let top = b.clone() << (u64::MAX - e - 1); // exponent u64::MAX - 1
+        nat_add(&mut h, &top, &top);
+        nat_cmp(&mut h, &top, &huge);
+        nat_cmp(&mut h, &huge3, &top);
+        let near = b.clone() << (u64::MAX - e - 3);
+        nat_add(&mut h, &near, &near);
+        nat_add(&mut h, &near, &top);
+        nat_add(&mut h, &top, &near);
+        nat_shift(&mut h, &top, false, u64::MAX - e - 1, false);
+        nat_shift(&mut h, &top, false, u64::MAX - e, false);
+        nat_shift(&mut h, &top, true, 1, true);
+    }
+
+    // ---- random operands up to 512 bits ----
+    let mut pool: Vec<Natural> = Vec::new();
+    for i in 0..count {
+        let da = random_digits(&mut rng);
+        let db = if rng.chance(1, 4) {
+            // related operand: same digits with a small change (carries, cancellation)
+            let mut d = da.clone();
+            let j = rng.below(d.len());
+            match rng.below(4) {
+                0 => d[j] = d[j].wrapping_add(1),
+                1 => d[j] = !d[j],
+                2 => d[j] = d[j].wrapping_neg(),
+                _ => d[j] ^= 1u64 << rng.below(64),
+            }
+            if rng.chance(1, 2) {
+                for x in d.iter_mut() {
+                    *x = !*x;
+                }
+                d[0] = d[0].wrapping_add(1);
+            }
+            d
+        } else {
+            random_digits(&mut rng)
+        };
+        if i % 16 == 0 {
+            nat_from_digits(&mut h, &da);
+        }
+        let mut a = mk_nat(&da);
+        let mut b = mk_nat(&db);
+        if rng.chance(1, 3) {
+            a = a << rng.below(130) as u64;
+        }
+        if rng.chance(1, 3) {
+            b = b << rng.below(130) as u64;
+        }
+        nat_add(&mut h, &a, &b);
+        if i % 2 == 0 {
+            nat_cmp(&mut h, &a, &b);
+        }
+        if i % 5 == 0 {
+            // chains: sums of sums keep the in-place paths busy
+            if let Ok(s) = catch(|| a.clone() + b.clone()) {
+                nat_add(&mut h, &s, &a);
+                nat_add(&mut h, &b, &s);
+                nat_cmp(&mut h, &s, &a);
+                if pool.len() < 64 {
+                    pool.push(s);
+                } else {
+                    let j = rng.below(64);
+                    pool[j] = s;
+                }
+            }
+        }
+        if i % 7 == 0 && !pool.is_empty() {
+            let p = pool[rng.below(pool.len())].clone();
+            nat_add(&mut h, &p, &a);
+            nat_cmp(&mut h, &p, &p.clone());
+        }
+        if i % 8 == 0 {
+            per_operand(&mut h, &a, &mut rng, false);
+        }
+        if i % 8 == 4 {
+            // equal values built by different routes
+            let k = rng.below(70) as u64;
+            if let Ok(c) = catch(|| (a.clone() << k) >> k) {
+                nat_cmp(&mut h, &a, &c);
+            }
+            let a2 = a.clone();
+            nat_cmp(&mut h, &a, &a2);
+        }
+    }
+    h.finish(&dir, "natural-pairs");
+}
+
+/// `clone_from` between numbers of different representations; every call is
+/// announced by a `begin` event because a memory error may kill the process
+fn natural_clone(args: &Args) {
+    let dir = args.get("out", "out");
+    let seed = args.num("seed", 1);
+    let mut rng = Rng::new(seed);
+    let mut h = Hist::new(&dir, "natclone", "natural", 100000);
+    let mut vals: Vec<Vec<u64>> = vec![vec![1], vec![3], vec![1, 1], vec![1, 1, 1], vec![5, 0, 0, 7], vec![0],
+                                      vec![u64::MAX, u64::MAX], vec![0, 1], vec![0, 3, 1]];
+    for _ in 0..6 {
+        vals.push(random_digits(&mut rng));
+    }
+    // destinations that own no memory first (inline representation), then the others
+    for dst in &vals {
+        for src in &vals {
+            let d = mk_nat(dst);
+            let s = mk_nat(src);
+            let (jd, js) = (nat_json(&d), nat_json(&s));
+            h.emit(json!({"ev": "begin", "what": "nat_clone_from", "dst": jd, "src": js}));
+            let r = catch(move || {
+                let mut d = d;
+                d.clone_from(&s);
+                let j = nat_json(&d);
+                // use the clone: a sum reads every digit
+                let t = d.clone() + Natural::from(0u32);
+                (j, nat_json(&t))
+            });
+            let res = match r {
+                Ok((j, t)) => json!({"v": j, "sum0": t}),
+                Err(m) => json!({"panic": m}),
+            };
+            h.note("clone_from", &[&jd, &js], &json!({}));
+            h.emit(json!({"ev": "nat_clone_from", "dst": jd, "src": js, "res": res}));
+        }
+    }
+    h.finish(&dir, "natural-clone");
+}
+
+// ---------------------------------------------------------------------------
+// I64
+
+fn i64_json(x: &I64) -> Value {
+    match x {
+        I64::Num(n) => json!({"t": "num", "bits": limbs64(*n as u64)}),
+        I64::PlusInf => json!({"t": "pinf", "bits": []}),
+        I64::MinusInf => json!({"t": "ninf", "bits": []}),
+        I64::NaN => json!({"t": "nan", "bits": []}),
+    }
+}
+
+fn i64_events(h: &mut Hist, a: I64, b: I64, via_ops: bool) {
+    let (ja, jb) = (i64_json(&a), i64_json(&b));
+    for op in ["add", "sub", "mul", "div"] {
+        let r = catch(|| match (op, via_ops) {
+            ("add", false) => NumberBase::add(&a, &b),
+            ("sub", false) => NumberBase::sub(&a, &b),
+            ("mul", false) => NumberBase::mul(&a, &b),
+            ("div", false) => NumberBase::div(&a, &b),
+            ("add", true) => a + b,
+            ("sub", true) => &a - &b,
+            ("mul", true) => a * &b,
+            (_, _) => &a / b,
+        });
+        let res = match r {
+            Ok(v) => json!({"v": i64_json(&v)}),
+            Err(m) => json!({"panic": m}),
+        };
+        h.note(op, &[&ja, &jb], &res);
+        h.emit(json!({"ev": "i64_op", "op": op, "a": ja, "b": jb, "via": if via_ops { "ops" } else { "trait" }, "res": res}));
+    }
+    let r = catch(|| (a.partial_cmp(&b), a == b, hash_of(&a) == hash_of(&b), a < b, a <= b, a > b, a >= b));
+    let res = match r {
+        Ok((c, e, he, lt, le, gt, ge)) => {
+            json!({"cmp": ord_str(c), "eq": e, "heq": he, "lt": lt, "le": le, "gt": gt, "ge": ge})
+        }
+        Err(m) => json!({"panic": m}),
+    };
+    if a != b {
+        h.note("cmp", &[&ja, &jb], &json!({}));
+    }
+    h.emit(json!({"ev": "i64_cmp", "a": ja, "b": jb, "res": res}));
+}
+
+fn i64_unary(h: &mut Hist, a: I64) {
+    let ja = i64_json(&a);
+    let r = catch(|| {
+        let s = format!("{}", a);
+        let back = <I64 as ParseTagged<()>>::parse(&s).map(|p| p.0);
+        (s, back, a.is_zero(), a.is_one(), NumberBase::is_nan(&a))
+    });
+    let res = match r {
+        Ok((s, back, z, o, n)) => json!({"v": codes(&s), "s": s,
+            "back": match back { Some(b) => json!({"some": true, "v": i64_json(&b)}),
+                                 None => json!({"some": false, "v": i64_json(&I64::NaN)}) },
+            "is_zero": z, "is_one": o, "is_nan": n}),
+        Err(m) => json!({"panic": m}),
+    };
+    h.emit(json!({"ev": "i64_unary", "a": ja, "res": res}));
+}
+
+fn rand_i64(rng: &mut Rng) -> i64 {
+    // magnitudes of every bit length, both signs, values hugging the ends
+    match rng.below(10) {
+        0 => i64::MIN.wrapping_add(rng.below(4) as i64),
+        1 => i64::MAX.wrapping_sub(rng.below(4) as i64),
+        2 => rng.below(7) as i64 - 3,
+        _ => {
+            let w = rng.below(64) as u32;
+            let x = (rng.next() >> (63 - w)) as i64; // 0 .. 2^(w+1) - 1, may wrap into the negatives for w = 63
+            if rng.chance(1, 2) {
+                x.wrapping_neg()
+            } else {
+                x
+            }
+        }
+    }
+}
+
+fn num_i64(args: &Args) {
+    let dir = args.get("out", "out");
+    let seed = args.num("seed", 1);
+    let thorough = args.get("tier", "quick") == "thorough";
+    let count = args.num("count", if thorough { 120000 } else { 4000 }) as usize;
+    let mut rng = Rng::new(seed);
+    let mut h = Hist::new(&dir, "i64", "i64", args.num("chunk", 4000) as usize);
+    let b: Vec<I64> = vec![
+        I64::Num(0), I64::Num(1), I64::Num(-1), I64::Num(2), I64::Num(3), I64::Num(-7),
+        I64::Num(i64::MIN), I64::Num(i64::MIN + 1), I64::Num(i64::MAX), I64::Num(i64::MAX - 1),
+        I64::Num(1 << 31), I64::Num(1 << 32), I64::Num(-(1 << 32)),
+        I64::PlusInf, I64::MinusInf, I64::NaN,
+    ];
+    for x in &b {
+        i64_unary(&mut h, *x);
+        for y in &b {
+            i64_events(&mut h, *x, *y, false);
+            i64_events(&mut h, *x, *y, true);
+        }
+    }
+    // constants of the trait
+    for x in [I64::zero(), I64::one(), I64::nan(), I64::from(5), I64::from(-5)] {
+        i64_unary(&mut h, x);
+    }
+    // further boundary operands
+    let more: Vec<I64> = [
+        -2i64, -3, 7, (1 << 31) - 1, -(1 << 31), (1 << 32) - 1, (1 << 32) + 1, 3037000499, 3037000500, -3037000500,
+        1 << 62, -(1 << 62), (1 << 62) - 1, (1 << 62) + 1, i64::MIN + 2, i64::MAX - 2, i64::MIN / 2, i64::MAX / 2,
+        i64::MAX / 2 + 1, i64::MIN / 2 - 1, i64::MAX / 3, i64::MIN / 3, 1 << 21, 1 << 42, -(1 << 21),
+    ]
+    .iter()
+    .map(|&n| I64::Num(n))
+    .collect();
+    let all: Vec<I64> = b.iter().chain(more.iter()).cloned().collect();
+    for x in &more {
+        i64_unary(&mut h, *x);
+        for y in &all {
+            i64_events(&mut h, *x, *y, false);
+            i64_events(&mut h, *y, *x, false);
+        }
+    }
+    for i in 0..count {
+        let x = rand_i64(&mut rng);
+        let y = match rng.below(8) {
+            // products and quotients around the representable range
+            0 if x != 0 => (i64::MAX / x).wrapping_add(rng.below(3) as i64 - 1),
+            1 if x != 0 => (i64::MIN / x.wrapping_abs().max(1)).wrapping_add(rng.below(3) as i64 - 1),
+            // sums and differences around the ends
+            2 => i64::MAX.wrapping_sub(x).wrapping_add(rng.below(3) as i64 - 1),
+            3 => i64::MIN.wrapping_sub(x).wrapping_add(rng.below(3) as i64 - 1),
+            4 => x.wrapping_sub(i64::MAX).wrapping_add(rng.below(3) as i64 - 1),
+            5 => x.wrapping_sub(i64::MIN).wrapping_add(rng.below(3) as i64 - 1),
+            _ => rand_i64(&mut rng),
+        };
+        let (a, bb) = (I64::Num(x), I64::Num(y));
+        i64_events(&mut h, a, bb, i % 2 == 1);
+        if i % 16 == 0 {
+            let s = all[13 + rng.below(3)];
+            i64_events(&mut h, a, s, false);
+            i64_events(&mut h, s, a, false);
+            i64_unary(&mut h, a);
+        }
+    }
+    h.finish(&dir, "num-i64");
+}
+
+// ---------------------------------------------------------------------------
+// F64 (terminal type of oxidd-rules-mtbdd)
+
+fn tf64_json(x: &F64) -> Value {
+    f64_json(f64::from(*x))
+}
+
+fn f64_events(h: &mut Hist, a: F64, b: F64, via_ops: bool) {
+    let (ja, jb) = (tf64_json(&a), tf64_json(&b));
+    for op in ["add", "sub", "mul", "div"] {
+        let r = catch(|| match (op, via_ops) {
+            ("add", false) => NumberBase::add(&a, &b),
+            ("sub", false) => NumberBase::sub(&a, &b),
+            ("mul", false) => NumberBase::mul(&a, &b),
+            ("div", false) => NumberBase::div(&a, &b),
+            ("add", true) => a + b,
+            ("sub", true) => &a - &b,
+            ("mul", true) => a * &b,
+            (_, _) => &a / b,
+        });
+        let res = match r {
+            Ok(v) => json!({"v": tf64_json(&v)}),
+            Err(m) => json!({"panic": m}),
+        };
+        h.note(op, &[&ja, &jb], &res);
+        h.emit(json!({"ev": "f64_op", "op": op, "a": ja, "b": jb, "via": if via_ops { "ops" } else { "trait" }, "res": res}));
+    }
+    let r = catch(|| (a.partial_cmp(&b), a == b, hash_of(&a) == hash_of(&b), a < b, a <= b, a > b, a >= b));
+    let res = match r {
+        Ok((c, e, he, lt, le, gt, ge)) => {
+            json!({"cmp": ord_str(c), "eq": e, "heq": he, "lt": lt, "le": le, "gt": gt, "ge": ge})
+        }
+        Err(m) => json!({"panic": m}),
+    };
+    if a != b {
+        h.note("cmp", &[&ja, &jb], &json!({}));
+    }
+    h.emit(json!({"ev": "f64_cmp", "a": ja, "b": jb, "res": res}));
+}
+
+fn f64_from(h: &mut Hist, raw: f64) {
+    let r = catch(|| F64::from(raw));
+    let res = match r {
+        Ok(v) => json!({"v": tf64_json(&v)}),
+        Err(m) => json!({"panic": m}),
+    };
+    h.emit(json!({"ev": "f64_from", "x": f64_json(raw), "res": res}));
+}
+
+fn f64_parse(h: &mut Hist, s: &str) {
+    let r = catch(|| <F64 as ParseTagged<()>>::parse(s).map(|p| p.0));
+    let res = match r {
+        Ok(Some(v)) => json!({"some": true, "v": tf64_json(&v)}),
+        Ok(None) => json!({"some": false, "v": f64_json(0.0)}),
+        Err(m) => json!({"panic": m}),
+    };
+    h.emit(json!({"ev": "f64_parse", "s": s, "c": codes(s), "res": res}));
+}
+
+/// m * 2^e assembled from its bits (m < 2^53 is exact in an f64)
+fn dyadic(neg: bool, m: u64, e: i32) -> f64 {
+    let mut x = m as f64;
+    // scaling by a power of two is exact as long as no bits fall off the
+    // subnormal end; the operand that results is *observed* anyway
+    let mut e = e;
+    while e > 0 {
+        let s = e.min(1000);
+        x *= f64::from_bits(((1023 + s) as u64) << 52);
+        e -= s;
+    }
+    while e < 0 {
+        let s = (-e).min(1000);
+        x *= f64::from_bits(((1023 - s) as u64) << 52);
+        e += s;
+    }
+    if neg {
+        -x
+    } else {
+        x
+    }
+}
+
+fn rand_dyadic(rng: &mut Rng) -> f64 {
+    let mbits = match rng.below(5) {
+        0 => 1 + rng.below(4),
+        1 => 1 + rng.below(26),
+        2 => 53,
+        _ => 1 + rng.below(53),
+    };
+    let m = (rng.next() >> (64 - mbits as u32)) | if rng.chance(1, 2) { 1 } else { 0 };
+    let e = match rng.below(6) {
+        0 => 0,
+        1 => rng.below(12) as i32 - 6,
+        2 => rng.below(120) as i32 - 60,
+        3 => rng.below(2000) as i32 - 1074,
+        _ => rng.below(40) as i32 - 20,
+    };
+    dyadic(rng.chance(1, 2), m, e)
+}
+
+fn num_f64(args: &Args) {
+    let dir = args.get("out", "out");
+    let seed = args.num("seed", 1);
+    let thorough = args.get("tier", "quick") == "thorough";
+    let count = args.num("count", if thorough { 60000 } else { 2500 }) as usize;
+    let mut rng = Rng::new(seed);
+    let mut h = Hist::new(&dir, "f64", "f64", args.num("chunk", 3000) as usize);
+
+    // normalisation at construction: NaN payloads, signs, signed zeros
+    let raws: Vec<f64> = vec![
+        0.0, -0.0, 1.0, -1.0, f64::NAN, -f64::NAN, f64::from_bits(0x7ff0_0000_0000_0001),
+        f64::from_bits(0xfff8_0000_0000_0000), f64::from_bits(0x7fff_ffff_ffff_ffff),
+        f64::from_bits(0xfff0_0000_0000_0001), f64::from_bits(0x7ff4_0000_0000_0000),
+        f64::INFINITY, f64::NEG_INFINITY, f64::MIN_POSITIVE, -f64::MIN_POSITIVE, f64::from_bits(1),
+        f64::from_bits(0x8000_0000_0000_0001), f64::MAX, f64::MIN, f64::EPSILON, 0.5, 2.0, 3.0, -7.0,
+    ];
+    for &r in &raws {
+        f64_from(&mut h, r);
+    }
+    for s in ["0", "-0", "-0.0", "+0.0", "0.0", "-0e0", "1", "-1", "2.5", "-7", "1e3", "nan", "NaN", "NAN", "-nan",
+              "+nan", "-NaN", "inf", "-inf", "+inf", "Inf", "-Infinity", "∞", "-∞", "+∞", "MinusInf", "PlusInf",
+              "0.1", "1e400", "-1e400", "1e-400", "-1e-400", "x", ""] {
+        f64_parse(&mut h, s);
+    }
+    let c = |x: f64| F64::from(x);
+    let specials: Vec<F64> = vec![
+        c(0.0), c(-0.0), c(1.0), c(-1.0), c(2.0), c(3.0), c(-7.0), c(0.5), c(-0.5), c(0.75),
+        c(9007199254740991.0), c(9007199254740992.0), c(-9007199254740992.0), c(4503599627370497.0),
+        c(2147483648.0), c(4294967296.0), c(-4294967296.0), c(9223372036854775808.0), c(-9223372036854775808.0),
+        c(f64::MAX), c(f64::MIN), c(f64::MIN_POSITIVE), c(-f64::MIN_POSITIVE), c(f64::from_bits(1)),
+        c(f64::from_bits(0x8000_0000_0000_0001)), c(f64::from_bits(0x000f_ffff_ffff_ffff)), c(dyadic(false, 1, 1023)),
+        c(dyadic(false, 1, 512)), c(dyadic(true, 3, 511)), c(dyadic(false, 1, -537)), c(f64::EPSILON),
+        c(f64::INFINITY), c(f64::NEG_INFINITY), c(f64::NAN), F64::nan(), F64::zero(), F64::one(),
+    ];
+    for x in &specials {
+        for y in &specials {
+            f64_events(&mut h, *x, *y, false);
+        }
+    }
+    for (i, x) in specials.iter().enumerate() {
+        f64_events(&mut h, *x, specials[(i * 7 + 3) % specials.len()], true);
+    }
+    for i in 0..count {
+        let x = rand_dyadic(&mut rng);
+        let y = match rng.below(6) {
+            0 => -x,
+            1 => x,
+            // exact quotients: y divides x * y
+            2 => {
+                let q = dyadic(rng.chance(1, 2), (rng.next() >> 40) | 1, rng.below(20) as i32 - 10);
+                let d = dyadic(false, (rng.next() >> 40) | 1, rng.below(20) as i32 - 10);
+                let p = q * d; // 48 bits: exact
+                f64_events(&mut h, c(p), c(d), false);
+                d
+            }
+            _ => rand_dyadic(&mut rng),
+        };
+        f64_events(&mut h, c(x), c(y), i % 2 == 1);
+        if i % 16 == 0 {
+            let s = specials[rng.below(specials.len())];
+            f64_events(&mut h, c(x), s, false);
+            f64_events(&mut h, s, c(x), false);
+            f64_from(&mut h, x);
+            f64_from(&mut h, f64::from_bits(rng.next()));
+        }
+    }
+    h.finish(&dir, "num-f64");
+}
+
+pub fn run(driver: &str, args: &Args) {
+    match driver {
+        "natural-pairs" => natural_pairs(args),
+        "natural-clone" => natural_clone(args),
+        "num-i64" => num_i64(args),
+        "num-f64" => num_f64(args),
+        d => {
+            eprintln!("unknown driver {d}");
+            std::process::exit(2);
+        }
+    }
 }
